@@ -193,6 +193,29 @@ int main(int argc, char** argv) {
     return 0;
   }
 
+  if (a.has("shrink")) {
+    // confirm + shrink a case found elsewhere (libFuzzer artifact); writes FILE.shrunk
+    scase c;
+    if (!case_from_text(read_file(a.str("shrink")), c)) return 2;
+    o.collect = false;
+    forked_result fr = run_forked(c, o, true);
+    if (fr.kind == forked_result::PASS) {
+      std::cout << "PASS\n";
+      return 0;
+    }
+    unsigned runs = 0;
+    scase small = shrink(c, o, fr, runs);
+    forked_result fr2 = run_forked(small, o, true);
+    if (fr2.kind == forked_result::PASS) {
+      small = c;
+      fr2 = fr;
+    }
+    write_file(a.str("shrink") + ".shrunk", "# property " + prop + " violated: " + fr2.message + "\n# found by libFuzzer, shrunk from " +
+                                                std::to_string(c.ops.size()) + " to " + std::to_string(small.ops.size()) + " operations\n" +
+                                                case_to_text(small));
+    std::cout << "FAILURE " << a.str("shrink") + ".shrunk" << " :: " << fr2.message << "\n";
+    return 1;
+  }
   const std::uint64_t seed = a.u64("seed", 1);
   const std::uint64_t cases = a.u64("cases", 100);
   gen_params gp;
